@@ -79,6 +79,7 @@ LOWERABLE = {
     _O + "map_or_else": {"on": "opt", "arms": {"Some": ("call", 2), "None": ("call", 1)}},
     _O + "unwrap_or_else": {"on": "opt", "arms": {"Some": ("value", lambda p, a: p), "None": ("call", 1)}},
     _O + "and_then": {"on": "opt", "arms": {"Some": ("call", 1), "None": ("value", lambda p, a: _NONE)}},
+    _O + "filter": {"on": "opt", "arms": {"Some": ("filtercall", 1), "None": ("value", lambda p, a: _NONE)}},
     _O + "is_some_and": {"on": "opt", "arms": {"Some": ("call", 1), "None": ("value", lambda p, a: ("const", False))}},
     _O + "is_none_or": {"on": "opt", "arms": {"Some": ("call", 1), "None": ("value", lambda p, a: ("const", True))}},
     _R + "is_ok_and": {"on": "res", "arms": {"Ok": ("call", 1), "Err": ("value", lambda p, a: ("const", False))}},
@@ -626,7 +627,7 @@ class PathEnum:
             return None
 
         for how in spec["arms"].values():
-            if how[0] in ("call", "wrapcall") and closure_of(how[1]) is None:
+            if how[0] in ("call", "wrapcall", "filtercall") and closure_of(how[1]) is None:
                 return False
         taken = False
         for idx, vname in enumerate(variants):
@@ -662,10 +663,15 @@ class PathEnum:
                 self_arg = ("ref", clo, bool(ty1.get("mut"))) if ty1.get("k") == "ref" else clo
                 cargs = [self_arg] + ([payload] if callee.nargs >= 2 else [])
                 wrap = how[2] if how[0] == "wrapcall" else None
-                self._inline(clo[1], tuple(cargs), t, dict(env), conds_b, trace, events_b, onpath, bb, ret_wrap=wrap, use_ops=False)
+                fork = None
+                if how[0] == "filtercall":
+                    # the predicate gets a reference to the payload; the result keeps the payload or is None
+                    cargs = [self_arg] + ([("ref", payload, False)] if callee.nargs >= 2 else [])
+                    fork = (lambda pl: (lambda tv: _some(pl) if tv else _NONE))(payload)
+                self._inline(clo[1], tuple(cargs), t, dict(env), conds_b, trace, events_b, onpath, bb, ret_wrap=wrap, use_ops=False, ret_fork=fork)
         return taken
 
-    def _inline(self, path, args, t, env, conds, trace, events, onpath, bb, ret_wrap=None, use_ops=True):
+    def _inline(self, path, args, t, env, conds, trace, events, onpath, bb, ret_wrap=None, use_ops=True, ret_fork=None):
         """A crate-local function that did not exist when the rules were written (a helper introduced by a
         refactoring) is traversed, not treated as an opaque call: its body is walked with its parameters
         bound to the actual argument terms and to what the caller knows about the places they point at;
@@ -726,6 +732,23 @@ class PathEnum:
                         caller._kill_prefix(env2, rk)
                         env2[rk] = v
             ret = cenv2.get("_0", ("unknown", "unset"))
+            if ret_fork is not None:
+                # the combinator branches on the closure's (boolean) result: `opt.filter(|x| p(x))` is Some(x) iff p(x)
+                for tv, cnd in ((True, ("ne", (0,))), (False, ("eq", 0))):
+                    if ret[0] == "const" and isinstance(ret[1], bool):
+                        if ret[1] != tv:
+                            continue
+                        conds3, events3 = conds2, events2
+                    else:
+                        if not feasible(conds2, ret, cnd, events2):
+                            continue
+                        conds3 = conds2 + [(ret, cnd, bb)]
+                        events3 = events2 + [("cond", bb, None, ret, cnd)]
+                    env3 = dict(env2)
+                    val = ret_fork(tv)
+                    caller._assign(env3, dest, val)
+                    caller._walk(target, env3, conds3, trace2, events3 + [("inlined-return", bb, None, path, val)], onpath)
+                return
             if ret_wrap is not None:
                 ret = ret_wrap(ret)
             caller._assign(env2, dest, ret)
